@@ -18,7 +18,7 @@ META = {
         "a name referenced inline never looks like a convention name of another scope (naming hygiene H11)",
     ],
     "must_observe": ["events_executed", "cb_checked", "phases_closed", "initial_activations"],
-    "shard_timeout": {"quick": 300, "thorough": 3400},
+    "shard_timeout": {"quick": 900, "thorough": 3400},
 }
 
 PROFILE = {"n_states": (2, 5), "n_events": (1, 4), "extra_transitions": (1, 6), "p_multi_event": 0.35,
